@@ -168,14 +168,46 @@ class case_deadline:
         raise CaseTimeout()
 
     def __enter__(self):
-        self.old = signal.signal(signal.SIGALRM, self._fire)
-        signal.setitimer(signal.ITIMER_REAL, self.seconds)
+        import threading
+
+        self.active = threading.current_thread() is threading.main_thread()
+        if self.active:  # signals exist in the main thread only; elsewhere the shard's hard timeout is the watchdog
+            self.old = signal.signal(signal.SIGALRM, self._fire)
+            signal.setitimer(signal.ITIMER_REAL, self.seconds)
         return self
 
     def __exit__(self, *exc):
-        signal.setitimer(signal.ITIMER_REAL, 0)
-        signal.signal(signal.SIGALRM, self.old)
+        if self.active:
+            signal.setitimer(signal.ITIMER_REAL, 0)
+            signal.signal(signal.SIGALRM, self.old)
         return False
+
+
+def run_with_deep_stack(fn, *, stack_mb=512, recursion_limit=200000, timeout=600):
+    """Runs fn() in a thread with a large C stack and a raised recursion limit (for trees that are deeper than the
+    interpreter's default limit of about 1000 nested calls).  Returns (finished, exception or None)."""
+    import sys
+    import threading
+
+    box = {}
+
+    def target():
+        try:
+            fn()
+        except BaseException as e:  # noqa: BLE001
+            box["exc"] = e
+
+    old_limit = sys.getrecursionlimit()
+    old_stack = threading.stack_size(stack_mb * 1024 * 1024)
+    try:
+        sys.setrecursionlimit(recursion_limit)
+        th = threading.Thread(target=target, daemon=True)
+        th.start()
+        th.join(timeout)
+        return (not th.is_alive()), box.get("exc")
+    finally:
+        threading.stack_size(old_stack)
+        sys.setrecursionlimit(old_limit)
 
 
 # ---------------------------------------------------------------------------
